@@ -135,8 +135,7 @@ func distMain(x *X) {
 			x.R.Skipped = "tie"
 			return
 		}
-		if d.Kind == "value" && orderSensitive(cop, c.Data, RefQuery(cop, c.Data, op.Eng.LookbackMs).Res) {
-			x.R.Skipped = "order-sensitive"
+		if x.undecidable(cop, c.Data) {
 			return
 		}
 		x.Viol("C10", "dist-vs-central", d.Kind+"|"+shape, fmt.Sprintf("%s: %s (distributed vs central)", desc, d.Detail))
@@ -242,8 +241,7 @@ func hintsMain(x *X) {
 	// timestamps and label sets exactly; values up to summation order (the two runs have different
 	// callback sequences, hence different schedules and shard arrival orders)
 	if d := Compare(trimmed.Res, full.Res, Tol); d.Kind != "" {
-		if d.Kind == "value" && orderSensitive(bop, c.Data, RefQuery(bop, c.Data, bop.Eng.LookbackMs).Res) {
-			x.R.Skipped = "order-sensitive"
+		if x.undecidable(bop, c.Data) {
 			return
 		}
 		x.Viol("C16", "hinted-range", "trim-"+d.Kind+"|"+shape+"|"+windowClass(op), fmt.Sprintf("%s [%d..%d step %d] (optimizers %s): result changes when the storage omits samples outside the hinted range: %s", op.Q, op.Start, op.End, op.Step, optim, d.Detail))
